@@ -305,7 +305,7 @@ func runC20(w *World, r *Report, tier string) {
 	}
 	// XMPPTransport.Connect dials Config.Address
 	conn := w.Func("xmpp.(*XMPPTransport).Connect")
-	dials := w.callsIn(conn, "net.DialTimeout", "net.Dial")
+	dials := w.callsInH(conn, "net.DialTimeout", "net.Dial")
 	okDial := len(dials) == 1
 	if okDial {
 		args := dials[0].Common().Args
